@@ -159,8 +159,16 @@ impl Msg<'_> {
     }
 }
 
+/// Bit of `Op::flags`: the pad starts with a character the encoder has to escape (or a multi-byte one).
+pub const SPICY: u8 = 32;
+
 fn build(op: &Op, pad: usize) -> Msg<'static> {
-    let p = "p".repeat(pad);
+    let p = if op.flags & SPICY != 0 {
+        let pre = ["\u{0}", "\"", "\\", "\n", "é", "\u{1f}", "\u{7f}€", "\u{0}\u{0}"][op.i as usize % 8];
+        format!("{pre}{}", "p".repeat(pad))
+    } else {
+        "p".repeat(pad)
+    };
     let call_flags = |c: Call<Doc>| c.set_oneway(op.flags & 1 != 0).set_more(op.flags & 2 != 0).set_upgrade(op.flags & 4 != 0);
     match (op.api.as_str(), &op.mode) {
         ("enqueue_call" | "send_call", Mode::Typed) => Msg::CallTyped(
@@ -251,6 +259,64 @@ pub fn run(sc: &Scenario, stats: &mut Stats) {
             w.write_yield = cancel;
             w.write_yielded = false;
         }
+        if op.api == "chain" {
+            // Connection::chain_call / Chain::append / Chain::send: every call of the chain is enqueued behind
+            // whatever is enqueued already, `send` is one flush.  (While the chain borrows the connection the
+            // hook cannot be read: these returns are logged as `retq`, without cursor values.)
+            let n = 1 + (op.i as usize % 3);
+            let calls: Vec<Call<Doc>> = (0..n)
+                .map(|k| Call::new(Doc { pad: "c".repeat(op.want / (k + 1)), mode: Mode::Pad }).set_oneway(k == 1).set_more(k == 2 && op.flags & 2 != 0))
+                .collect();
+            let log_op = |c: &Call<Doc>| {
+                let reference = serde_json::to_vec(c).unwrap();
+                ev(json!({"ev":"op","kind":"enqueue","api":"chain","h":fnv(&reference),"len":reference.len(),"bad":false}));
+            };
+            let log_ret = |e: Option<&zlink_core::Error>| {
+                let cls = match e {
+                    None => "ok",
+                    Some(e) => match err_class(e) {
+                        "decode_err" => "ser_err",
+                        o => o,
+                    },
+                };
+                ev(json!({"ev":"retq","cls":cls}));
+            };
+            log_op(&calls[0]);
+            let mut chain = match conn.chain_call::<Doc, RStrict, UErr>(&calls[0]) {
+                Ok(ch) => {
+                    log_ret(None);
+                    Some(ch)
+                }
+                Err(e) => {
+                    log_ret(Some(&e));
+                    None
+                }
+            };
+            for c in &calls[1..] {
+                if let Some(ch) = chain.take() {
+                    log_op(c);
+                    match ch.append(c) {
+                        Ok(ch) => {
+                            log_ret(None);
+                            chain = Some(ch);
+                        }
+                        Err(e) => log_ret(Some(&e)),
+                    }
+                }
+            }
+            let alive = chain.is_some();
+            if alive {
+                ev(json!({"ev":"op","kind":"flush","api":"chain_send","h":"","len":0,"bad":false}));
+                let cls = match drive(chain.take().unwrap().send(), false) {
+                    Some(Ok(_stream)) => "ok",
+                    Some(Err(e)) => err_class(&e),
+                    None => "cancelled",
+                };
+                let (blen, pos) = hook(&conn);
+                ev(json!({"ev":"ret","cls":cls,"pos":pos,"blen":blen}));
+            }
+            continue;
+        }
         if op.api == "flush" {
             ev(json!({"ev":"op","kind":"flush","api":"flush","h":"","len":0,"bad":false}));
             let r = drive(conn.flush(), cancel);
@@ -333,7 +399,7 @@ fn rand_mode(r: &mut Rng, allow_bad: bool) -> Mode {
 }
 
 fn rand_api(r: &mut Rng) -> &'static str {
-    *r.pick(&["enqueue_call", "enqueue_call", "enqueue_call", "send_call", "send_reply", "send_error", "send_raw", "flush"])
+    *r.pick(&["enqueue_call", "enqueue_call", "enqueue_call", "send_call", "send_reply", "send_error", "send_raw", "flush", "chain"])
 }
 
 fn rand_len(r: &mut Rng) -> usize {
@@ -356,7 +422,7 @@ pub fn gen_history(r: &mut Rng, sid: String) -> Scenario {
             want: rand_len(r),
             i: r.below(100000) as u32,
             // now and then a send / flush is abandoned while its transport write is pending
-            flags: r.below(8) as u8 | if r.chance(1, 8) { CANCEL } else { 0 },
+            flags: r.below(8) as u8 | if r.chance(1, 8) { CANCEL } else { 0 } | if r.chance(1, 6) { SPICY } else { 0 },
         })
         .collect();
     Scenario { sid, ops, fail_write_at: if r.chance(1, 12) { r.range(1, 3) } else { 0 } }
